@@ -619,7 +619,16 @@ func c06TypeRules(p *Prog, r *Report) {
 		fam[f] = true
 	}
 	base := familyModel(p, fam, nil)
+	// a private helper of parseUpdateOp that applies the type rule is part of it
+	ruleHelper := func(f *ssa.Function) bool {
+		return f != nil && f != upd && f != typeRule && f.Parent() == nil && pkgOfFn(f) == pkgOfFn(upd) && onlyCalledFrom(p, f, upd, 2) &&
+			callsDirectly(f, func(c ssa.CallInstruction) bool { return c.Common().StaticCallee() == typeRule })
+	}
+	s.Inline = ruleHelper
 	s.Model = func(sm *Sim, st *State, call ssa.CallInstruction, callee *ssa.Function) []*State {
+		if ruleHelper(callee) {
+			return nil // inlined
+		}
 		if callee == typeRule {
 			t, f := st.clone(), st.clone()
 			t.aux["typeRule"] = "T"
